@@ -79,3 +79,7 @@ impl Serialize for SecretKey {
         <str as Serialize>::serialize(PLACEHOLDER, serializer)
     }
 }
+
+// verification hook (compiled only under `cargo kani`, see /verif/MANIFEST.json hooks)
+#[cfg(kani)]
+include!(concat!(env!("VERIF_KANI_INC"), "/s3s_auth_secret_key.rs"));
